@@ -2,6 +2,7 @@ package alias
 
 import (
 	"context"
+	"fmt"
 	"testing"
 	"time"
 
@@ -21,12 +22,21 @@ import (
 
 func probeParSigEx(t *testing.T, sks []SKind) {
 	t.Helper()
+	for n := 1; n <= 3; n++ {
+		if !probeParSigExN(t, sks, n) {
+			return
+		}
+	}
+}
+
+// probeParSigExN runs the probes with n subscribers on the receiving side; false = no local networking.
+func probeParSigExN(t *testing.T, sks []SKind, n int) bool {
+	t.Helper()
 	var (
 		hosts []host.Host
 		infos []peer.AddrInfo
 		peers []peer.ID
 	)
-	ok := true
 	contain("parsigex hosts", func() {
 		for i := 0; i < 2; i++ {
 			h := testutil.CreateHost(t, testutil.AvailableAddr(t))
@@ -39,7 +49,7 @@ func probeParSigEx(t *testing.T, sks []SKind) {
 	})
 	if len(hosts) != 2 {
 		skip("parsigex: cannot create local libp2p hosts")
-		return
+		return false
 	}
 	defer func() {
 		for _, h := range hosts {
@@ -53,56 +63,71 @@ func probeParSigEx(t *testing.T, sks []SKind) {
 		duty core.Duty
 		set  core.ParSignedDataSet
 	}
-	recv := [2]chan got{make(chan got, 64), make(chan got, 64)}
+	recv := make([]chan got, n)
 	sender := parsigex.NewParSigEx(hosts[0], p2p.Send, 0, peers, verify, gater)
 	receiver := parsigex.NewParSigEx(hosts[1], p2p.Send, 1, peers, verify, gater)
-	for i := 0; i < 2; i++ {
+	for i := 0; i < n; i++ {
+		recv[i] = make(chan got, 64)
 		receiver.Subscribe(func(_ context.Context, d core.Duty, set core.ParSignedDataSet) error {
 			recv[i] <- got{d, set}
 			return nil
 		})
 	}
-	for n, k := range sks {
-		if !ok {
-			return
-		}
+	seq := uint64(0)
+	for _, k := range sks {
 		if k.Name == "SyncContributionAndProof" {
-			skip("parsigex %s: the type has no wire encoding (core.ParSignedDataFromProto does not produce it)", k.Name)
+			if n == 1 {
+				skip("parsigex %s: the type has no wire encoding (core.ParSignedDataFromProto does not produce it)", k.Name)
+			}
+
 			continue
 		}
-		contain("parsigex "+k.Name, func() {
-			sd, err := k.New(t, slot0)
-			if err != nil {
-				skip("parsigex %s: %v", k.Name, err)
-				return
-			}
-			duty := core.Duty{Slot: slot0 + uint64(n), Type: k.Duty}
-			set := core.ParSignedDataSet{testutil.RandomCorePubKey(t): core.ParSignedData{SignedData: sd, ShareIdx: 1}}
-			if err := sender.Broadcast(t.Context(), duty, set); err != nil {
-				skip("parsigex %s: Broadcast fails: %v", k.Name, err)
-				return
-			}
-			var outs [2]got
-			for i := 0; i < 2; i++ {
-				select {
-				case outs[i] = <-recv[i]:
-				case <-time.After(3 * time.Second):
-					skip("parsigex %s: subscriber %d did not receive the set (unsupported on the wire or no local networking)", k.Name, i+1)
-					if n == 0 {
-						ok = false
-					}
-
+		for pos := 0; pos < n; pos++ {
+			alive := true
+			contain("parsigex "+k.Name, func() {
+				sd, err := k.New(t, slot0)
+				if err != nil {
+					skip("parsigex %s: %v", k.Name, err)
 					return
 				}
+				seq++
+				duty := core.Duty{Slot: slot0 + seq, Type: k.Duty}
+				set := core.ParSignedDataSet{testutil.RandomCorePubKey(t): core.ParSignedData{SignedData: sd, ShareIdx: 1}}
+				if err := sender.Broadcast(t.Context(), duty, set); err != nil {
+					skip("parsigex %s: Broadcast fails: %v", k.Name, err)
+					return
+				}
+				outs := make([]got, n)
+				for i := 0; i < n; i++ {
+					select {
+					case outs[i] = <-recv[i]:
+					case <-time.After(3 * time.Second):
+						skip("parsigex %s: subscriber %d did not receive the set (no local networking?)", k.Name, i+1)
+						alive = seq > 1
+
+						return
+					}
+					if outs[i].duty != duty {
+						skip("parsigex %s: subscriber received another duty", k.Name)
+						return
+					}
+				}
+				held := []Named{{"set broadcast by the sending peer", set}}
+				for i := range outs {
+					if i != pos {
+						held = append(held, Named{fmt.Sprintf("subscriber %d set", i+1), outs[i].set})
+					}
+				}
+				observe("parsigex.receive>subscriber["+posName(n, pos)+"]|everybody else", k.Name, "sibling",
+					Named{"subscriber set (" + posName(n, pos) + ")", outs[pos].set}, held, nil)
+			})
+			if !alive {
+				return false
 			}
-			if outs[0].duty != duty || outs[1].duty != duty {
-				skip("parsigex %s: subscribers received another duty", k.Name)
-				return
-			}
-			observe("parsigex.receive>subscriber|subscriber", k.Name, "sibling", Named{"subscriber 1 set", outs[0].set},
-				[]Named{{"subscriber 2 set", outs[1].set}}, nil)
-		})
+		}
 	}
+
+	return true
 }
 
 // ---------------------------------------------------------------------------------------------
